@@ -37,6 +37,7 @@ struct Case {
     std::vector<Op> ops;
     std::vector<unsigned> slices;
     unsigned reenter = 0; // bit0: data handlers call RecvData, bit1: semaphore handler calls GetSemaphore, bit2: data handler sends, bit3: semaphore handler acknowledges
+    unsigned dismask = 0;  // channels whose interrupt the DSP handler disables (0x0D4) from its first entry on
     unsigned readmask = 7; // channels whose CMDi the DSP handler reads and echoes; the others stay full after their first send
     unsigned polls = 0;    // bit3: main leaves repc != 0; bit4: the handler does push st2 ... pop st2; bit2: the APBP interrupt switches the register context (ic0 = 1, handler ends in retic); bit0: the DSP handler reads CMDi only when the status register shows it ready; bit1: the host reads only
                            // after RecvDataIsReady (and its callbacks do not read)
@@ -50,7 +51,7 @@ uint16_t W(const std::string& form, const std::vector<long>& v) {
 }
 
 std::string encode(const Case& c) {
-    std::string s = "reenter " + vf::hex(c.reenter) + "\nreadmask " + vf::hex(c.readmask) + "\npolls " + vf::hex(c.polls) + "\nslices";
+    std::string s = "reenter " + vf::hex(c.reenter) + "\nreadmask " + vf::hex(c.readmask) + "\npolls " + vf::hex(c.polls) + "\ndismask " + vf::hex(c.dismask) + "\nslices";
     for (auto x : c.slices)
         s += " " + vf::hex(x);
     s += "\n";
@@ -69,7 +70,9 @@ Case decode(const std::string& text) {
         else if (t[0] == "readmask" && t.size() >= 2)
             c.readmask = (unsigned)vf::unhex(t[1]) & 7;
         else if (t[0] == "polls" && t.size() >= 2)
-            c.polls = (unsigned)vf::unhex(t[1]) & 31;
+            c.polls = (unsigned)vf::unhex(t[1]) & 63;
+        else if (t[0] == "dismask" && t.size() >= 2)
+            c.dismask = (unsigned)vf::unhex(t[1]) & 7;
         else if (t[0] == "slices")
             for (size_t i = 1; i < t.size(); ++i)
                 c.slices.push_back((unsigned)vf::unhex(t[i]));
@@ -89,7 +92,8 @@ Case decode(const std::string& text) {
 
 const uint16_t kCounter = 0x2000, kLastCmd = 0x2100;
 
-void load_program(Teakra::Teakra& t, unsigned readmask, bool dsp_polls, bool ctx_switch, bool stale_repc, bool save_st2) {
+void load_program(Teakra::Teakra& t, unsigned readmask, bool dsp_polls, bool ctx_switch, bool stale_repc, bool save_st2, unsigned dismask,
+                  uint32_t hbase) {
     std::vector<uint16_t> main;
     if (stale_repc) { // the main program leaves a non-zero repeat counter behind (no repeat is running)
         main.push_back(W("mov_repc(Imm16)", {-1}));
@@ -101,7 +105,7 @@ void load_program(Teakra::Teakra& t, unsigned readmask, bool dsp_polls, bool ctx
         t.ProgramWrite(0x0100 + (uint32_t)i, main[i]);
     // int0 vector -> handler
     t.ProgramWrite(0x0006, W("br(Address18_16,Address18_2,CondValue)", {-1, 0, 0}));
-    t.ProgramWrite(0x0007, 0x0400);
+    t.ProgramWrite(0x0007, 0x0400); // (unused when the request is routed to the vectored line: the handler then sits at hbase)
     std::vector<uint16_t> h;
     auto load = [&](uint16_t addr) { // mov [addr], a0
         h.push_back(W("mov(MemImm16,Ax)", {-1, 0}));
@@ -125,7 +129,7 @@ void load_program(Teakra::Teakra& t, unsigned readmask, bool dsp_polls, bool ctx
             load(0x80D8);
             h.push_back(W("alu(AlmOp#8,Imm16,Ax)", {1, -1, 0})); // and #(1 << (13 + i)), a0
             h.push_back((uint16_t)(1u << (13 + i)));
-            h.push_back(W("br(Address18_16,Address18_2,CondValue)", {-1, 0, 1})); // br eq, skip
+            h.push_back(W("br(Address18_16,Address18_2,CondValue)", {-1, (long)(hbase >> 16), 1})); // br eq, skip
             patch = h.size();
             h.push_back(0);
         }
@@ -133,13 +137,13 @@ void load_program(Teakra::Teakra& t, unsigned readmask, bool dsp_polls, bool ctx
         store(kLastCmd + i);
         store(0x80C0 + 4 * i); // REPLYi
         if (dsp_polls)
-            h[patch] = (uint16_t)(0x0400 + h.size());
+            h[patch] = (uint16_t)(hbase + h.size());
     }
     load(0x80D2); // semaphore from the host ...
     store(0x80CC); // ... echoed to the host
     store(0x80D0); // and acknowledged
-    imm(0x0000);
-    store(0x80D4); // (re)write the interrupt-disable bits while the host may be sending
+    imm((uint16_t)(((dismask & 1) << 8) | (((dismask >> 1) & 1) << 12) | (((dismask >> 2) & 1) << 13)));
+    store(0x80D4); // (re)write the interrupt-disable bits (a generated subset of the channels disabled) while the host may be sending
     imm(0x4000);
     store(0x8202); // acknowledge IRQ 14
     // count the entry
@@ -150,7 +154,7 @@ void load_program(Teakra::Teakra& t, unsigned readmask, bool dsp_polls, bool ctx
         h.push_back(W("pop(Register)", {10}));
     h.push_back(ctx_switch ? W("retic(CondValue)", {0}) : W("reti(CondValue)", {0}));
     for (size_t i = 0; i < h.size(); ++i)
-        t.ProgramWrite(0x0400 + (uint32_t)i, h[i]);
+        t.ProgramWrite(hbase + (uint32_t)i, h[i]);
 }
 
 // Deadlock watchdog. A case normally takes a fraction of a second; one that has not finished after kWatchdogSeconds is stuck
@@ -192,14 +196,26 @@ vf::Result check(const Case& c) {
     static Teakra::Teakra* instance = new Teakra::Teakra(Teakra::UserConfig{}); // construction is slow under TSan: one per process
     Teakra::Teakra& t = *instance;
     t.Reset();
-    load_program(t, c.readmask, c.polls & 1, (c.polls & 4) != 0, (c.polls & 8) != 0, (c.polls & 16) != 0);
+    const bool vectored = (c.polls & 32) != 0; // the APBP request goes to the vectored line, its handler lives above 0x10000
+    const uint32_t hbase = vectored ? 0x10400 : 0x0400;
+    const unsigned dismask = c.dismask & 7;
+    load_program(t, c.readmask, c.polls & 1, (c.polls & 4) != 0, (c.polls & 8) != 0, (c.polls & 16) != 0, dismask, hbase);
     const bool host_polls = (c.polls & 2) != 0;
-    t.MMIOWrite(0x206, 0x4000); // IRQ 14 (APBP) -> int0
     auto& regs = t.GetRegisterState();
+    if (vectored) {
+        t.MMIOWrite(0x20C, 0x4000); // IRQ 14 (APBP) -> vectored line
+        t.MMIOWrite(0x212 + 4 * 14, (uint16_t)((hbase >> 16) | ((c.polls & 4) ? 0x8000 : 0)));
+        t.MMIOWrite(0x214 + 4 * 14, (uint16_t)hbase);
+        regs.imv = 1;
+    } else {
+        t.MMIOWrite(0x206, 0x4000); // IRQ 14 (APBP) -> int0
+        regs.im[0] = 1;
+        regs.ic[0] = (c.polls & 4) ? 1 : 0; // the service routine runs in the other register context and returns with retic
+    }
     regs.pc = 0x0100;
     regs.sp = 0x1800;
-    regs.im[0] = 1;
-    regs.ic[0] = (c.polls & 4) ? 1 : 0; // the service routine runs in the other register context and returns with retic
+    // a channel counts for the value / delivery clauses when the handler reads it and its interrupt stays enabled
+    auto counted = [&](unsigned i) { return ((c.readmask >> i) & 1) && !((dismask >> i) & 1); };
     regs.sat = regs.sata = 1;
 
     // what the host observes (host thread + callbacks on the DSP thread)
@@ -294,7 +310,7 @@ vf::Result check(const Case& c) {
                     std::this_thread::yield();
                 ++syncs;
                 for (unsigned i = 0; i < 3 && logic_error.empty(); ++i) {
-                    if (!seq[i] || !((c.readmask >> i) & 1))
+                    if (!seq[i] || !counted(i))
                         continue;
                     unsigned echoed = t.PeekRecvData((uint8_t)i);
                     bool callback_sent = (c.reenter & 4) != 0;
@@ -344,7 +360,7 @@ vf::Result check(const Case& c) {
     std::string what = std::to_string(c.ops.size()) + " host ops, " + std::to_string(sends) + " sends, " + std::to_string(entries) + " handler entries, overlap " +
                        std::to_string(overlap);
     for (int i = 0; i < 3; ++i) {
-        if (!seq[i] || !((c.readmask >> i) & 1))
+        if (!seq[i] || !counted((unsigned)i))
             continue;
         unsigned on_dsp = t.DataRead((uint16_t)(kLastCmd + i), true);
         bool callback_sent = (c.reenter & 4) != 0; // a re-entrant send of 0 may legitimately be the last value
@@ -374,11 +390,15 @@ vf::Result check(const Case& c) {
             }
         }
     }
-    if (sends && entries == 0)
+    unsigned enabled_sends = 0;
+    for (unsigned i = 0; i < 3; ++i)
+        if (!((dismask >> i) & 1))
+            enabled_sends += seq[i];
+    if (enabled_sends && entries == 0)
         return vf::Result::fail("C19:no-interrupt", "no handler entry although " + std::to_string(sends) + " sends were made with the interrupt enabled (" + what + ")");
     unsigned echoed_sends = 0;
     for (unsigned i = 0; i < 3; ++i)
-        if ((c.readmask >> i) & 1)
+        if (counted(i))
             echoed_sends += seq[i];
     if (data_cb.load() == 0 && echoed_sends)
         return vf::Result::fail("C19:no-host-callback", "the DSP replied but no host data handler ran (" + what + ")");
@@ -386,6 +406,8 @@ vf::Result check(const Case& c) {
     // concurrent history left behind (full / empty mailboxes on both sides): one more send per channel, each followed by a
     // bounded run; the DSP handler must be entered again, and where it echoes, a host data handler must run again
     for (unsigned i = 0; i < 3; ++i) {
+        if ((dismask >> i) & 1)
+            continue; // interrupt disabled for this channel: no delivery promised
         unsigned entries_before = t.DataRead(kCounter, true);
         unsigned cb_before = data_cb.load();
         bool was_full = !t.SendDataIsEmpty((uint8_t)i), reply_full = t.RecvDataIsReady((uint8_t)i);
@@ -429,6 +451,10 @@ vf::Result check(const Case& c) {
         vf::klass("main program leaves repc != 0");
     if (c.polls & 16)
         vf::klass("service routine saves and restores st2");
+    if (c.polls & 32)
+        vf::klass("request routed to the vectored line, handler above 0x10000");
+    if (c.dismask)
+        vf::klass("some channels' interrupts disabled by the DSP");
     vf::note(vf::hash_str(encode(c)), overlap >= 3 && sends >= 1);
     if (overlap >= 10 && vf::ctx().samples.size() < 5)
         vf::sample(what + "; slices " + std::to_string(c.slices.size()));
@@ -460,8 +486,8 @@ int main(int argc, char** argv) {
         using namespace rc;
         return gen::map(gen::tuple(gen::container<std::vector<Op>>(genOp()), gen::container<std::vector<unsigned>>(gen::element<unsigned>(1, 1, 2, 3, 7, 16, 64, 200, 1000)),
                                    vf::range<unsigned>(0, 16), gen::weightedOneOf<unsigned>({{1, gen::just(7u)}, {1, vf::range<unsigned>(0, 8)}}),
-                                   vf::range<unsigned>(0, 32)),
-                        [](std::tuple<std::vector<Op>, std::vector<unsigned>, unsigned, unsigned, unsigned> t) {
+                                   vf::range<unsigned>(0, 64), gen::weightedOneOf<unsigned>({{2, gen::just(0u)}, {1, vf::range<unsigned>(1, 7)}})),
+                        [](std::tuple<std::vector<Op>, std::vector<unsigned>, unsigned, unsigned, unsigned, unsigned> t) {
                             Case c;
                             c.ops = std::get<0>(t);
                             // long schedules: repeat the generated list so that both threads really overlap
@@ -473,7 +499,8 @@ int main(int argc, char** argv) {
                             c.slices = std::get<1>(t);
                             c.reenter = std::get<2>(t);
                             c.readmask = std::get<3>(t) & 7;
-                            c.polls = std::get<4>(t) & 31;
+                            c.polls = std::get<4>(t) & 63;
+                            c.dismask = std::get<5>(t) & 7;
                             return c;
                         });
     };
